@@ -167,6 +167,18 @@ func c20Cases(cc *h.Ctx) error {
 				c.Drift("ip.IPv4.CIDRMask", "text-form", fmt.Sprintf("printed %q, CIDR notation is %q", cm, str(k.Text)), sample)
 			}
 			c.Exec(2)
+			// P (history): the observers are pure -- on ONE object, reading the network / mask / range / text forms must
+			// not change what the object is (its String() and fields before and after are the same)
+			x := v4(k.IP, k.P)
+			s0, u0 := x.String(), x.ToUInt32()
+			x.ComputeMask()
+			x.CIDRMask()
+			x.IsInSubnet(v4(k.Net, k.P))
+			x.IsInRange(v4(k.Net, 32), v4(k.IP, 32))
+			if s1, u1 := x.String(), x.ToUInt32(); s1 != s0 || u1 != u0 || !eqInts(oct4(x), k.IP) || int(x.MaskBits) != k.P {
+				c.Fail("ip.IPv4", "observer-mutates-receiver", fmt.Sprintf("%s: after ComputeMask/CIDRMask/IsInSubnet/IsInRange on the same object it prints %s (fields %v/%d)", s0, s1, oct4(x), x.MaskBits), sample)
+			}
+			c.Exec(6)
 		case "ip4sub":
 			c.Case(fmt.Sprintf("ip4sub:%v in %v/%d", k.IP, k.Net, k.P))
 			sample := map[string]interface{}{"ip": k.IP, "subnet": k.Net, "prefix": k.P, "spec": k.R, "role": k.Role}
